@@ -11,7 +11,9 @@ C02v(o) ==
   ELSE IF o.hung THEN "C02_Hung"
   ELSE IF o.first # 0 /\ o.first \notin SetOf(o.allowed) THEN "C02_Classification"
   ELSE IF o.first = 0 /\ 17 \notin SetOf(o.allowed) /\ ~o.conformant THEN "C02_NoReaction"
-  ELSE IF o.decoded /\ ~o.stable THEN "C02_Unstable"
+  \* (a PDU that was decoded but then classified as invalid - Evt19 - or met a closed connection - Evt17 - is covered by
+  \*  the property's second alternative; stability is required of the values that are accepted)
+  ELSE IF o.decoded /\ ~o.stable /\ o.first \notin {17, 19} THEN "C02_Unstable"
   ELSE IF o.conformant /\ (o.first \notin SetOf(o.allowed) \/ ~o.decoded \/ ~o.accepted_equal) THEN "C02_RejectedConformant"
   ELSE "ok"
 TInit == i = 1
